@@ -423,6 +423,7 @@ func (m *urlModule) createURLConstructor() goja.Value {
 			if ref.Fragment == "" {
 				u.Fragment, u.RawFragment = "", "" // RFC 3986 5.2.2: the fragment is always the reference's
 			}
+			dropDefaultPort(u) // a scheme-relative reference inherits the scheme only now
 			m.fixURL(u)
 		} else {
 			u = m.parseURL(call.Argument(0).String(), true)
